@@ -103,6 +103,7 @@ End Iter.
 
 (* ------------------------------------------------------------------ the machine *)
 Section MachineProofs.
+  Variable discard : bool.
   Variable M : Type.
   Variable m_empty : M.
   Variable m_scan : M -> rs_block -> list N -> M.
@@ -114,7 +115,7 @@ Section MachineProofs.
 
   Notation scanb := (rs_scan_block M m_scan).
   Notation iterate := (rs_iterate M m_scan blocks).
-  Notation drive := (rs_drive M m_empty m_scan R reads finish blocks).
+  Notation drive := (rs_drive discard M m_empty m_scan R reads finish blocks).
   Notation init := (rs_init M m_empty).
   Definition fold_scan (m : M) (bl : list rs_block) : M := fold_left scanb bl m.
   Definition reads_val : list (option N) := map (pure_read_from blocks) reads.
@@ -187,18 +188,18 @@ Section MachineProofs.
     drive fsz (S fu) st it =
     let '(b, it1) := rs_it_call blocks true it in
     match b with
-    | None => tail fsz fu (rs_matches M st) it1
-    | Some b0 => cont fsz n fu (scanb (rs_matches M st) b0) it1
+    | None => tail fsz fu (rs_fresh_matches discard M m_empty st) it1
+    | Some b0 => cont fsz n fu (scanb (rs_fresh_matches discard M m_empty st) b0) it1
     end.
   Proof.
     intros fsz fu st it He. unfold cont, tail, bump. simpl rs_drive. unfold rs_scan_call. rewrite He. fold n.
     destruct (rs_it_call blocks true it) as [b it1]. destruct b as [b0|].
-    - destruct (iterate n (scanb (rs_matches M st) b0) it1) as [[m' it2]|]; [|reflexivity].
+    - destruct (iterate n (scanb (rs_fresh_matches discard M m_empty st) b0) it1) as [[m' it2]|]; [|reflexivity].
       destruct (ri_err it2).
       + destruct (drive fsz fu (mk_rs_state M m' true) it2) as [[[[r c] st''] it'']|]; reflexivity.
       + destruct (rs_do_reads blocks reads it2) as [[vals it3]|]; reflexivity.
     - destruct (ri_err it1).
-      + destruct (drive fsz fu (mk_rs_state M (rs_matches M st) true) it1) as [[[[r c] st''] it'']|]; reflexivity.
+      + destruct (drive fsz fu (mk_rs_state M (rs_fresh_matches discard M m_empty st) true) it1) as [[[[r c] st''] it'']|]; reflexivity.
       + destruct (rs_do_reads blocks reads it1) as [[vals it3]|]; reflexivity.
   Qed.
 
@@ -252,11 +253,11 @@ Section MachineProofs.
 
   Theorem run_characterised : forall fsz pat,
     rs_conforming n pat = true ->
-    exists itf, rs_run M m_empty m_scan R reads finish blocks fsz pat =
+    exists itf, rs_run discard M m_empty m_scan R reads finish blocks fsz pat =
                 Some (finish (fold_scan m_empty blocks) fsz reads_val, S (count_true pat), init, itf).
   Proof.
     intros fsz pat Hc. unfold rs_run, rs_conforming in *.
-    rewrite drive_fresh by reflexivity. simpl rs_matches.
+    rewrite drive_fresh by reflexivity. change (rs_fresh_matches discard M m_empty init) with m_empty.
     destruct pat as [|x p].
     - (* always ready *)
       simpl length. unfold rs_it_call, rs_iter_init. cbn [ri_log ri_pat ri_next ri_err]. simpl tl.
@@ -303,8 +304,8 @@ Section MachineProofs.
   Theorem resume_equivalent_proof : forall fsz pat,
     rs_conforming (length blocks) pat = true ->
     exists r itf itf0,
-      rs_run M m_empty m_scan R reads finish blocks fsz pat = Some (r, S (count_true pat), init, itf) /\
-      rs_run M m_empty m_scan R reads finish blocks fsz [] = Some (r, 1, init, itf0).
+      rs_run discard M m_empty m_scan R reads finish blocks fsz pat = Some (r, S (count_true pat), init, itf) /\
+      rs_run discard M m_empty m_scan R reads finish blocks fsz [] = Some (r, 1, init, itf0).
   Proof.
     intros fsz pat Hc.
     destruct (run_characterised fsz pat Hc) as (itf & H1).
@@ -314,16 +315,66 @@ Section MachineProofs.
 
   Lemma drive1_call : forall fsz st it r c st' it',
     drive fsz 1 st it = Some (r, c, st', it') ->
-    rs_scan_call M m_empty m_scan R reads finish blocks fsz st it = (RsDone R r, st', it').
+    rs_scan_call discard M m_empty m_scan R reads finish blocks fsz st it = (RsDone R r, st', it').
   Proof.
     intros fsz st it r c st' it' H. simpl in H.
-    destruct (rs_scan_call M m_empty m_scan R reads finish blocks fsz st it) as [[res st1] it1].
+    destruct (rs_scan_call discard M m_empty m_scan R reads finish blocks fsz st it) as [[res st1] it1].
     destruct res; try discriminate. inversion H; subst; reflexivity.
+  Qed.
+
+  (* a call that returns ERROR_BLOCK_NOT_READY leaves the notebook alive *)
+  Lemma not_ready_keeps_notebook : forall fsz st it st' it',
+    rs_scan_call discard M m_empty m_scan R reads finish blocks fsz st it = (RsNotReady R, st', it') ->
+    rs_notebook M st' = true.
+  Proof.
+    intros fsz st it st' it' H. unfold rs_scan_call in H.
+    destruct (if ri_err it then _ else _) as [[m it2]|]; [|inversion H].
+    destruct (ri_err it2).
+    - inversion H; reflexivity.
+    - destruct (rs_do_reads blocks reads it2) as [[vals it3]|]; inversion H.
   Qed.
 End MachineProofs.
 
+(* ------------------------------------------------------------------ abandoned scans (fix 8a2210d) *)
+Section Abandoned.
+  Variable M : Type.
+  Variable m_empty : M.
+  Variable m_scan : M -> rs_block -> list N -> M.
+  Variable R : Type.
+  Variable reads : list N.
+  Variable finish : M -> option N -> list (option N) -> R.
+
+  (* a fresh call (new iterator: last_error is not ERROR_BLOCK_NOT_READY) on a scanner whose previous scan was
+     given up after ERROR_BLOCK_NOT_READY - whatever matches it left - behaves in every respect (result, state
+     left behind, iterator calls) as the same call on a newly created scanner *)
+  Lemma fresh_call_discards_leftovers : forall blocks fsz m it,
+    ri_err it = false ->
+    rs_scan_call true M m_empty m_scan R reads finish blocks fsz (mk_rs_state M m true) it =
+    rs_scan_call true M m_empty m_scan R reads finish blocks fsz (rs_init M m_empty) it.
+  Proof. intros blocks fsz m it He. unfold rs_scan_call. rewrite He. reflexivity. Qed.
+
+  Theorem scan_after_abandoned_equals_fresh_proof : forall blocks fsz m it fuel buf,
+    ri_err it = false ->
+    rs_drive true M m_empty m_scan R reads finish blocks fsz fuel (mk_rs_state M m true) it =
+      rs_drive true M m_empty m_scan R reads finish blocks fsz fuel (rs_init M m_empty) it /\
+    rs_scanner_scan_mem true M m_empty m_scan R reads finish (mk_rs_state M m true) buf =
+      rs_rules_scan_mem true M m_empty m_scan R reads finish buf /\
+    rs_scanner_scan_file true M m_empty m_scan R reads finish (mk_rs_state M m true) buf =
+      rs_rules_scan_file true M m_empty m_scan R reads finish buf /\
+    rs_scanner_scan_fd true M m_empty m_scan R reads finish (mk_rs_state M m true) buf =
+      rs_rules_scan_fd true M m_empty m_scan R reads finish buf /\
+    rs_fresh_leaks true M (mk_rs_state M m true) = false /\
+    rs_destroy_leaks true M (mk_rs_state M m true) = false.
+  Proof.
+    intros blocks fsz m it fuel buf He.
+    split; [|repeat split].
+    destruct fuel as [|fu]; [reflexivity|]. simpl. rewrite (fresh_call_discards_leftovers blocks fsz m it He). reflexivity.
+  Qed.
+End Abandoned.
+
 (* ------------------------------------------------------------------ entry points *)
 Section Entry.
+  Variable discard : bool.
   Variable M : Type.
   Variable m_empty : M.
   Variable m_scan : M -> rs_block -> list N -> M.
@@ -338,11 +389,11 @@ Section Entry.
            (map (pure_read_from [rs_mem_block buf]) reads).
 
   Lemma one_block : forall b fsz,
-    rs_one M m_empty m_scan R reads finish (rs_init M m_empty) b fsz =
+    rs_one discard M m_empty m_scan R reads finish (rs_init M m_empty) b fsz =
     Some (finish (rs_scan_block M m_scan m_empty b) fsz (map (pure_read_from [b]) reads)).
   Proof.
     intros b fsz. unfold rs_one.
-    destruct (run_characterised M m_empty m_scan R reads finish [b] fsz [] (conforming_nil _)) as (itf & H).
+    destruct (run_characterised discard M m_empty m_scan R reads finish [b] fsz [] (conforming_nil _)) as (itf & H).
     unfold rs_run in H. simpl length in H.
     apply drive1_call in H. rewrite H. unfold fold_scan, reads_val. simpl. reflexivity.
   Qed.
@@ -361,22 +412,22 @@ Section Entry.
   Qed.
 
   Theorem entry_points_agree_proof : forall buf,
-    rs_rules_scan_mem M m_empty m_scan R reads finish buf = Some (entry_result buf) /\
-    rs_rules_scan_file M m_empty m_scan R reads finish buf = Some (entry_result buf) /\
-    rs_rules_scan_fd M m_empty m_scan R reads finish buf = Some (entry_result buf) /\
-    rs_scanner_scan_mem M m_empty m_scan R reads finish (rs_init M m_empty) buf = Some (entry_result buf) /\
-    rs_scanner_scan_file M m_empty m_scan R reads finish (rs_init M m_empty) buf = Some (entry_result buf) /\
-    rs_scanner_scan_fd M m_empty m_scan R reads finish (rs_init M m_empty) buf = Some (entry_result buf) /\
-    rs_single_block_iter M m_empty m_scan R reads finish (rs_init M m_empty) buf = Some (entry_result buf).
+    rs_rules_scan_mem discard M m_empty m_scan R reads finish buf = Some (entry_result buf) /\
+    rs_rules_scan_file discard M m_empty m_scan R reads finish buf = Some (entry_result buf) /\
+    rs_rules_scan_fd discard M m_empty m_scan R reads finish buf = Some (entry_result buf) /\
+    rs_scanner_scan_mem discard M m_empty m_scan R reads finish (rs_init M m_empty) buf = Some (entry_result buf) /\
+    rs_scanner_scan_file discard M m_empty m_scan R reads finish (rs_init M m_empty) buf = Some (entry_result buf) /\
+    rs_scanner_scan_fd discard M m_empty m_scan R reads finish (rs_init M m_empty) buf = Some (entry_result buf) /\
+    rs_single_block_iter discard M m_empty m_scan R reads finish (rs_init M m_empty) buf = Some (entry_result buf).
   Proof.
     intros buf.
-    assert (rs_scanner_scan_mem M m_empty m_scan R reads finish (rs_init M m_empty) buf = Some (entry_result buf)) as Hm
+    assert (rs_scanner_scan_mem discard M m_empty m_scan R reads finish (rs_init M m_empty) buf = Some (entry_result buf)) as Hm
       by (unfold rs_scanner_scan_mem; rewrite one_block; reflexivity).
-    assert (rs_scanner_scan_file M m_empty m_scan R reads finish (rs_init M m_empty) buf = Some (entry_result buf)) as Hf
+    assert (rs_scanner_scan_file discard M m_empty m_scan R reads finish (rs_init M m_empty) buf = Some (entry_result buf)) as Hf
       by (unfold rs_scanner_scan_file; rewrite one_block, map_block_same; reflexivity).
     repeat split; try exact Hm; try exact Hf.
     unfold rs_single_block_iter.
-    destruct (run_characterised M m_empty m_scan R reads finish [rs_mem_block buf] (rs_fsz buf) [] (conforming_nil _))
+    destruct (run_characterised discard M m_empty m_scan R reads finish [rs_mem_block buf] (rs_fsz buf) [] (conforming_nil _))
       as (itf & H).
     unfold rs_run in H. simpl length in H. rewrite H. unfold fold_scan, reads_val. reflexivity.
   Qed.
@@ -397,7 +448,7 @@ Definition ex_rc_rules : list rc_rule :=
 Definition ex_blocks : list rs_block :=
   [ mk_rs_block 0 3 (Some [97; 98; 99]%N); mk_rs_block 3 3 (Some [97; 98; 99]%N) ].
 Definition ex_run (pat : list bool) :=
-  match rc_run ex_pats ex_rc_rules [] 0 never_stop ex_blocks (Some 6%N) pat with
+  match rc_run true ex_pats ex_rc_rules [] 0 never_stop ex_blocks (Some 6%N) pat with
   | Some (r, c, _, _) => Some (r, c)
   | None => None
   end.
@@ -420,23 +471,36 @@ Lemma ex_nonconforming :
     Some (([RMatch 0; RNoMatch 1; RMatch 2; RFinished], ERROR_SUCCESS, [[0; 3]%N]), 1).
 Proof. split; vm_compute; reflexivity. Qed.
 
-(* a scan given up after ERROR_BLOCK_NOT_READY leaves its matches in the scanner (nothing cleans them: the
-   fresh path of the next call does not, scanner.c:492-520): the next scan through the same scanner object,
-   of a buffer without "abc", sees the stale match.  Rule: #0 == 1. *)
+(* the abandoned scan, on the concrete instance.  Rule: #0 == 1; blocks "abc","abc", the second not ready; the
+   caller gives up and scans "ab" with the same scanner.  The state the abandoned call leaves is the same in
+   both variants of the code; what the next (fresh) call does with it differs. *)
 Definition ex_count_rule : list rc_rule := [ mk_rc_rule 0 false false (RcCount 0 1) ].
-Definition ex_abandoned_state :=
-  snd (fst (rc_call ex_pats ex_count_rule [] 0 never_stop ex_blocks (Some 6%N)
-                    (rs_init _ (map (fun _ => []) ex_pats)) (rs_iter_init [false; true]))).
-Definition ex_scan_ab (st : rs_state (list (list N))) :=
-  rs_scanner_scan_mem _ (map (fun _ => []) ex_pats) (rc_scan ex_pats) _ (rc_reads ex_count_rule)
+Definition ex_abandoned_call (discard : bool) :=
+  rc_call discard ex_pats ex_count_rule [] 0 never_stop ex_blocks (Some 6%N)
+          (rs_init _ (map (fun _ => []) ex_pats)) (rs_iter_init [false; true]).
+Definition ex_abandoned_state (discard : bool) := snd (fst (ex_abandoned_call discard)).
+Definition ex_scan_ab (discard : bool) (st : rs_state (list (list N))) :=
+  rs_scanner_scan_mem discard _ (map (fun _ => []) ex_pats) (rc_scan ex_pats) _ (rc_reads ex_count_rule)
                       (rc_finish ex_count_rule [] 0 never_stop) st [97; 98]%N.
 
-Lemma abandoned_call_returns_not_ready :
-  fst (fst (rc_call ex_pats ex_count_rule [] 0 never_stop ex_blocks (Some 6%N)
-                    (rs_init _ (map (fun _ => []) ex_pats)) (rs_iter_init [false; true]))) = RsNotReady _.
-Proof. vm_compute. reflexivity. Qed.
+Lemma abandoned_call_returns_not_ready : forall d,
+  fst (fst (ex_abandoned_call d)) = RsNotReady _ /\
+  ex_abandoned_state d = mk_rs_state _ [[0%N]] true.
+Proof. intros d; destruct d; split; vm_compute; reflexivity. Qed.
 
-Lemma scanner_reuse_after_abandoned_scan_refuted_proof :
-  ex_scan_ab (rs_init _ (map (fun _ => []) ex_pats)) = Some ([RNoMatch 0; RFinished], ERROR_SUCCESS, [[]]) /\
-  ex_scan_ab ex_abandoned_state = Some ([RMatch 0; RFinished], ERROR_SUCCESS, [[0%N]]).
-Proof. split; vm_compute; reflexivity. Qed.
+(* current code: same answer as a fresh scanner, nothing leaked by the next scan or by destroy *)
+Lemma ex_abandoned_current :
+  ex_scan_ab true (ex_abandoned_state true) = Some ([RNoMatch 0; RFinished], ERROR_SUCCESS, [[]]) /\
+  ex_scan_ab true (rs_init _ (map (fun _ => []) ex_pats)) = Some ([RNoMatch 0; RFinished], ERROR_SUCCESS, [[]]) /\
+  rs_fresh_leaks true _ (ex_abandoned_state true) = false /\
+  rs_destroy_leaks true _ (ex_abandoned_state true) = false.
+Proof. repeat split; vm_compute; reflexivity. Qed.
+
+(* pinned code (before fix 8a2210d): the stale match at offset 0 makes "#a == 1" true on "ab", and the notebook
+   is lost both ways *)
+Lemma scanner_reuse_after_abandoned_scan_pinned_refuted_proof :
+  ex_scan_ab false (rs_init _ (map (fun _ => []) ex_pats)) = Some ([RNoMatch 0; RFinished], ERROR_SUCCESS, [[]]) /\
+  ex_scan_ab false (ex_abandoned_state false) = Some ([RMatch 0; RFinished], ERROR_SUCCESS, [[0%N]]) /\
+  rs_fresh_leaks false _ (ex_abandoned_state false) = true /\
+  rs_destroy_leaks false _ (ex_abandoned_state false) = true.
+Proof. repeat split; vm_compute; reflexivity. Qed.
